@@ -51,25 +51,8 @@ def run(prog: Program, ctx: Ctx) -> None:  # noqa: PLR0912,PLR0915
 
     # ------------------------------------------------------------------ R1
     ctx.rule("R1", "an __init__ is synthesised only when the class has none and is decorated as a dataclass")
-    ar = prog.function(f"{X}._apply_recursively")
-    cfg = cfg_of(ar)
-    calls = [c for c in calls_in(ar.node) if dotted(c.func) == "_set_dataclass_init"]
-    ctx.expect_min("R1", len(calls), 1)
-    for c in calls:
-        for x in node_index(ar).get(id(c), []):
-            ok = cfg.dominated_by_fact(x, lambda a, t: t and unparse(a).replace('"', "'") == "'__init__' not in mod_cls.members")
-            ctx.ob("R1", key(ar, "never-replace"), ok, "a hand-written __init__ is never replaced (synthesis dominated by `'__init__' not in members`)", where(ar, c))
-            ok2 = cfg.dominated_by_fact(x, lambda a, t: t and unparse(a) == "isinstance(mod_cls, Class)")
-            ctx.ob("R1", key(ar, "classes-only"), ok2, "synthesis applies to classes only", where(ar, c))
-    cfg2 = cfg_of(sdi)
-    setm = [c for c in calls_in(sdi.node) if isinstance(c.func, ast.Attribute) and c.func.attr == "set_member"]
-    ctx.expect_min("R1", len(setm), 1)
-    for c in setm:
-        for x in node_index(sdi).get(id(c), []):
-            # the early return on a non-dataclass dominates: set_member unreachable unless the decorator test was truthy
-            ok = cfg2.dominated_by_fact(x, lambda a, t: (t and unparse(a) == "_dataclass_decorator(class_.decorators)") or (not t and unparse(a) == "not _dataclass_decorator(class_.decorators)"))
-            ctx.ob("R1", key(sdi, "never-invent"), ok, "non-dataclass classes get no __init__ (set_member dominated by the decorator test)", where(sdi, c))
-
+    # (decided on behaviour with the walk rows further down - "R1 rows": the whole extension is run through on_package_loaded on a package holding a
+    # dataclass without constructor, one with a hand-written constructor, a plain class, a nested dataclass and a function)
     # ------------------------------------------------------------------ R2 constructor table
     ctx.rule("R2", "for every small dataclass definition the synthesised parameters (names, order, kinds, required-ness) equal those of the __init__ "
                    "CPython's dataclasses module generates for the same source text")
@@ -337,6 +320,38 @@ def run(prog: Program, ctx: Ctx) -> None:  # noqa: PLR0912,PLR0915
         ctx.ob("R2", f"decorator-identity|{dpath} recognised", (is_deco is not None) == is_dc, f"_dataclass_decorator([@{dpath}]) -> {'a dataclass decorator' if is_deco is not None else 'None'}; "
                f"expected {'a dataclass decorator' if is_dc else 'None'}", where(prog.function(f"{X}._dataclass_decorator")))
     it.stubs[f"{M}.Class.mro"] = lambda _i, self_: list(self_.attrs["__mro__"])
+    # R1 rows: the walk of a package through on_package_loaded
+    it.stubs[f"{M}.Class.mro"] = lambda _i, self_: list(self_.attrs["__mro__"])
+    plain_dc = klass("Plain", "pk", [("x", {})], [])
+    own_init = klass("OwnInit", "pk", [("x", {})], [])
+    hand_written = Obj(None, {"name": "__init__", "is_alias": False, "is_class": False, "is_module": False, "is_function": True, "__closed__": True}, label="hand-written __init__")
+    own_init.attrs["members"]["__init__"] = hand_written
+    inner_of_own = klass("InnerOfOwnInit", "pk.OwnInit", [("z", {})], [])
+    own_init.attrs["members"]["InnerOfOwnInit"] = inner_of_own
+    not_dc = klass("NotADataclass", "pk", [("x", {})], [])
+    not_dc.attrs["decorators"] = []
+    inner = klass("Inner", "pk.Outer", [("y", {})], [])
+    outer = klass("Outer", "pk", [("x", {})], [])
+    outer.attrs["members"]["Inner"] = inner
+    func = Obj(None, {"name": "helper", "path": "pk.helper", "canonical_path": "pk.helper", "is_alias": False, "is_class": False, "is_module": False, "is_function": True,
+                      "members": {}, "labels": set(), "__closed__": True}, label="function")
+    pk1 = package("pk", [plain_dc, own_init, not_dc, outer])
+    pk1.attrs["members"]["helper"] = func
+    ext1 = it._construct(prog.cls("_griffe.extensions.dataclasses.DataclassesExtension"), [], {})
+    captured.clear()
+    try:
+        it.steps = 0
+        it.call(opl, ext1, pkg=pk1)
+        got1: object = {
+            "Plain": "__init__" in plain_dc.attrs["members"], "OwnInit kept": own_init.attrs["members"].get("__init__") is hand_written,
+            "NotADataclass": "__init__" in not_dc.attrs["members"], "Outer": "__init__" in outer.attrs["members"], "Inner": "__init__" in inner.attrs["members"],
+            "InnerOfOwnInit": "__init__" in inner_of_own.attrs["members"], "constructors built": len(captured)}
+    except Raised as r:
+        got1 = f"raises {r.exc}"
+    want1 = {"Plain": True, "OwnInit kept": True, "NotADataclass": False, "Outer": True, "Inner": True, "InnerOfOwnInit": True, "constructors built": 4}
+    ctx.ob("R1", "walk|dataclass, hand-written constructor, plain class, nested dataclass, function", got1 == want1,
+           f"on_package_loaded over such a package: {got1}; expected {want1} (a constructor for every dataclass without one, also nested; a hand-written one is "
+           "kept, and the classes nested in that class are still visited; nothing for other classes)", where(opl))
     # one extension instance, two trees with the same paths (the old and the new version of a package, as `griffe check` loads them): both are processed
     ext = it._construct(prog.cls("_griffe.extensions.dataclasses.DataclassesExtension"), [], {})
     v1 = package("core", [klass("Base", "core", [("x", {})], [])])
@@ -450,9 +465,7 @@ def run(prog: Program, ctx: Ctx) -> None:  # noqa: PLR0912,PLR0915
         ctx.ob("R5", key(f, "cached-result-not-mutated"), not bad, "results of memoised functions are only read" if not bad else
                f"`{norm(bad[0])}` mutates the list memoised by an @cache function: the base class's field list is polluted for every later subclass", where(f, bad[0] if bad else f.node),
                nontrivial=bool(bound))
-    dx = prog.cls(f"{X}.DataclassesExtension")
-    ok = bool(dx.methods.get("on_package_loaded")) and any(dotted(c.func) == "_apply_recursively" for c in calls_in(dx.methods["on_package_loaded"][0].node))
-    ctx.ob("R4", "hook", ok, "DataclassesExtension.on_package_loaded walks the package", f"{dx.module.relpath}:{dx.node.lineno}")
+    # (that on_package_loaded walks the package is what the R1 rows run)
 
 
 def _root_cause(l1: str, l2: str) -> str:
